@@ -43,7 +43,7 @@ func main() {
 	case "run":
 		st := vh.NewStats(statsRule)
 		obs := vh.Create(a.Out + "/impl.obs")
-		var crashLines []string
+		var crashLines, crashSeqLines []string
 		for _, line := range vh.ReadLines(a.Cases) {
 			switch k := caseKind(line); {
 			case k == "kv":
@@ -54,11 +54,14 @@ func main() {
 				runTanLine(line, obs, st)
 			case k == "crash":
 				crashLines = append(crashLines, line)
+			case k == "crashseq":
+				crashSeqLines = append(crashSeqLines, line)
 			default:
 				obs.Printf("%s badcase\n", strings.Fields(line)[0])
 			}
 		}
 		runCrashLines(crashLines, a.Tier, obs, st)
+		runCrashSeqLines(crashSeqLines, obs, st)
 		obs.Close()
 		st.Write(a.Out)
 	}
